@@ -149,7 +149,7 @@ def run_part(ctx):
     lib.require_coverage(r, ["Report", "Store", "Tip", "Trunc"])
     lib.account_tlc(ctx, r)
     if not ctx.quick():
-        write_mc_cfg(os.path.join(d, "MC_Coins_deep.cfg"), 4)
+        write_mc_cfg(os.path.join(d, "MC_Coins_deep.cfg"), 5)
         r = lib.tlc(ctx, d, "MC_Coins", "MC_Coins_deep.cfg", workers=8, timeout=3000, coverage=False)
         lib.account_tlc(ctx, r)
 
